@@ -19,13 +19,16 @@ _RealBytesIO = io.BytesIO
 
 class Field:
     """one primitive read of the real parser"""
-    __slots__ = ("off", "size", "got", "label", "kind", "value", "fmt")
+    __slots__ = ("off", "size", "got", "label", "kind", "value", "fmt", "site", "ctx", "code")
 
-    def __init__(self, off, size, got, label):
+    def __init__(self, off, size, got, label, site=None, ctx=None):
         self.off, self.size, self.got, self.label = off, size, got, label
         self.kind = "data"      # "num" | "len" | "sig" | "fmt" | "data"
         self.value = None
         self.fmt = None         # the struct format the bytes were unpacked with (read_fmt), when known
+        self.site = site        # "Class.function:line" of the reader statement that issued the read
+        self.ctx = ctx          # the same for the reader that called that reader
+        self.code = None        # struct item code ("B", "d", ...) of this field, when known
 
     def __repr__(self):
         return f"Field({self.off},{self.size},{self.label},{self.kind},{self.value})"
@@ -40,16 +43,19 @@ class _Trace:
         self.unmapped = 0
         self.on = True
         self.last = None        # (id of the bytes last returned by read, its Field)
+        self.seeks = set()      # absolute targets of fp.seek(pos, 0): how in-place containers skip to their end
 
 
 _cur: _Trace | None = None
 
 
 def _label():
-    """class (and method) of the innermost psd_tools reader on the stack"""
+    """-> (class of the innermost psd_tools reader on the stack, its statement "Class.function:line", the same for
+    the psd_tools reader that called it)"""
     f = sys._getframe(2)
     depth = 0
-    while f is not None and depth < 12:
+    found = []
+    while f is not None and depth < 16:
         co = f.f_code
         fn = co.co_filename
         if "psd_tools" in fn and "utils.py" not in fn:
@@ -58,10 +64,14 @@ def _label():
                 s = f.f_locals.get("self")
                 cls = type(s) if s is not None else None
             nm = getattr(cls, "__name__", None) or fn.rsplit("/", 1)[-1][:-3]
-            return nm
+            found.append((nm, "%s.%s:%d" % (nm, co.co_name, f.f_lineno)))
+            if len(found) == 2:
+                break
         f = f.f_back
         depth += 1
-    return "?"
+    if not found:
+        return "?", None, None
+    return found[0][0], found[0][1], (found[1][1] if len(found) > 1 else None)
 
 
 class _TBytesIO(_RealBytesIO):
@@ -85,13 +95,19 @@ class _TBytesIO(_RealBytesIO):
         r = super().read(n, *a)
         if n is None or n < 0:
             n = len(r)
-        fld = Field(self._base + pos, n, len(r), _label())
+        fld = Field(self._base + pos, n, len(r), *_label())
         t.fields.append(fld)
         t.last = (id(r), fld, r)
         if len(r) >= 4:
             t.bases[id(r)] = self._base + pos
             t.keep.append(r)
         return r
+
+    def seek(self, pos, whence=0):
+        t = _cur
+        if t is not None and t.on and self._base is not None and whence == 0:
+            t.seeks.add(self._base + pos)
+        return super().seek(pos, whence)
 
 
 _real_unpack = struct.unpack
@@ -113,21 +129,26 @@ def split_fmt(f: Field):
     import re as _re
     fmt = f.fmt.lstrip("<>!=@")
     out, off = [], f.off
+    j = 0
     for cnt, code in _re.findall(r"(\d*)([a-zA-Z?])", fmt):
         k = int(cnt) if cnt else 1
         if code in ("s", "p"):
-            g = Field(off, k, k, f.label)
+            g = Field(off, k, k, f.label, "%s#%d" % (f.site, j), f.ctx)
+            g.code = code
+            j += 1
             out.append(g)
             off += k
         elif code == "x":
             off += k
         elif code in _ITEM:
             for _ in range(k):
-                g = Field(off, _ITEM[code], _ITEM[code], f.label)
+                g = Field(off, _ITEM[code], _ITEM[code], f.label, "%s#%d" % (f.site, j), f.ctx)
+                g.code = code
                 if code in ("f", "d"):
                     g.fmt = "float"
                 out.append(g)
                 off += _ITEM[code]
+            j += 1
         else:
             return [f]
     if off != f.off + f.size:
@@ -138,13 +159,17 @@ def split_fmt(f: Field):
 class StructMap:
     """offsets of everything the real parser read"""
 
-    def __init__(self, data: bytes, fields: list[Field], unmapped: int):
+    def __init__(self, data: bytes, fields: list[Field], unmapped: int, seeks=()):
         self.data = data
         self.unmapped = unmapped
         fs = []
         for k, f in enumerate(fields):
             if f.got == 0 and f.size == 0:
                 continue
+            if f.fmt and f.fmt != "float":
+                one = f.fmt.lstrip("<>!=@")
+                if len(one) == 1 or (len(one) == 2 and one[0] == "1"):
+                    f.code = one[-1]
             if f.fmt and f.fmt != "float" and f.got == f.size and f.size not in (1, 2, 4, 8):
                 fs.extend(split_fmt(f))        # every item of a composite read_fmt is a field of its own
             else:
@@ -186,6 +211,71 @@ class StructMap:
         self.boundaries = sorted(b)
         # length-prefixed regions [start of the length field, end of the body)
         self.blocks = [(f.off, f.off + f.size + f.value, f.label) for f in self.lens if f.off + f.size + f.value <= n]
+        self._payload_index(n, set(seeks))
+
+    # ---- payload-level sites (descriptor-style keys, scalar leaves, length blocks with their enclosing blocks,
+    # ---- opaque payloads): everything is derived from the recorded reads, nothing from the names of the readers
+    def enclosing(self, lo, hi, but=None):
+        """containers whose body holds [lo, hi), innermost first"""
+        import bisect
+        k = bisect.bisect_right(self._starts, lo)
+        res = [c for c in self._cont_sorted[:k] if c[2] >= hi and c[0] is not but and c[0].off + c[0].size <= lo]
+        res.sort(key=lambda c: c[2] - c[1])
+        return res
+
+    def _payload_index(self, n, seeks):
+        import bisect
+        out = self.fields
+        by_off = sorted(out, key=lambda f: (f.off, -f.got))
+        offs = [f.off for f in by_off]
+
+        def inside(lo, hi, but=None):
+            """is any recorded read strictly inside [lo, hi) (other than `but`)?"""
+            k = bisect.bisect_left(offs, lo)
+            while k < len(by_off) and by_off[k].off < hi:
+                g = by_off[k]
+                if g is not but and g.got > 0 and g.off + g.got <= hi and (g.off, g.got) != (lo, hi - lo):
+                    return True
+                k += 1
+            return False
+
+        # length fields: the detected ones, and in-place containers (value -> a later fp.seek(end, 0))
+        cont = []
+        for f in self.nums:
+            if f.kind == "len":
+                cont.append((f, f.off + f.size, f.off + f.size + f.value, False))
+            elif f.size >= 2 and f.value and f.value > 0 and f.code not in ("f", "d"):
+                end = f.off + f.size + f.value
+                if end <= n and end in seeks and inside(f.off + f.size, end):
+                    cont.append((f, f.off + f.size, end, True))
+        cont = [c for c in cont if c[2] <= n]
+        self.containers = cont
+        self._cont_sorted = sorted(cont, key=lambda c: (c[1], -c[2]))
+        self._starts = [c[1] for c in self._cont_sorted]
+        # keys in the `length, bytes[length or 4]` idiom: a 4-byte number followed, in the same reader, by a raw read
+        self.keys = []
+        pos = {}
+        for k, f in enumerate(out):
+            pos.setdefault(f.off, []).append(f)
+        for f in self.nums:
+            if f.size != 4:
+                continue
+            want = f.value if f.value else 4
+            for g in pos.get(f.off + 4, ()):
+                if g is not f and g.fmt is None and g.got == g.size == want and g.label == f.label and g.size <= 64 \
+                        and (g.site or "").split(":")[0] == (f.site or "").split(":")[0] \
+                        and all(0x20 <= c < 0x7F for c in self.data[g.off:g.off + g.got]):
+                    self.keys.append((f, g, bool(f.value)))
+                    break
+        keyoffs = {g.off for _, g, _ in self.keys} | {f.off for f, _, _ in self.keys}
+        # scalar leaves (every numeric / float item that is not a key length, a signature or the header)
+        self.scalars = [f for f in out if f.got == f.size and f.off not in keyoffs and
+                        (f.kind in ("num", "len") or f.fmt == "float" or f.code in ("f", "d"))]
+        # opaque payloads: raw reads nobody parsed through a nested stream
+        self.opaque = [f for f in out if f.kind in ("data", "fmt") and f.fmt is None and f.got == f.size and f.got >= 8
+                       and f.off not in keyoffs and not inside(f.off, f.off + f.got, f)]
+        self.opaque_offs = {(f.off, f.got) for f in out if f.fmt is None and f.got == f.size and f.got > 0
+                            and not inside(f.off, f.off + f.got, f)}
 
 
 SKELETON = {"FileHeader", "ColorModeData", "ImageResources", "ImageResource", "LayerAndMaskInformation", "LayerInfo",
@@ -217,7 +307,7 @@ def trace_parse(data: bytes):
         io.BytesIO = _RealBytesIO
         struct.unpack = _real_unpack
         _cur = None
-    return res, StructMap(data, t.fields, t.unmapped)
+    return res, StructMap(data, t.fields, t.unmapped, t.seeks)
 
 
 # ---------------------------------------------------------------------------------------------
@@ -403,6 +493,168 @@ def boundary_truncations(sm: StructMap, skeleton_only=True):
 
 
 # ---------------------------------------------------------------------------------------------
+# payload-level mutation sites and their deterministic variants
+# ---------------------------------------------------------------------------------------------
+def payload_sites(sm: StructMap):
+    """-> list of plain dicts (picklable).  `feat` identifies the reader statement (and its caller) that consumed the
+    bytes: the caller picks a few sites per feature over all fixtures, so that every read statement of every payload
+    class that occurs in some fixture is exercised, however rare."""
+    out = []
+    for lf, kf, explicit in sm.keys:
+        out.append({"k": "key", "feat": ("key", kf.ctx or kf.site, kf.size if explicit else 0), "off": kf.off,
+                    "size": kf.size, "explicit": explicit, "label": kf.label, "lenoff": lf.off})
+    for f in sm.scalars:
+        if f.off < 26:
+            continue
+        isf = f.fmt == "float" or f.code in ("f", "d")
+        out.append({"k": "num", "feat": ("num", f.site, f.ctx, f.size, isf), "off": f.off, "size": f.size,
+                    "float": isf, "label": f.label})
+    for f, b0, b1, inplace in sm.containers:
+        enc = sm.enclosing(f.off, b1, f)
+        opaque = (b0, b1 - b0) in sm.opaque_offs or b1 == b0
+        out.append({"k": "block", "feat": ("block", f.site, f.ctx, "opaque" if opaque else "parsed",
+                                            "inplace" if inplace else "read"),
+                    "lenoff": f.off, "lensize": f.size, "b0": b0, "b1": b1, "opaque": opaque, "label": f.label,
+                    "off": f.off, "encl": [(g.off, g.size, g.value, e1) for g, _, e1, _ in enc]})
+    for f in sm.opaque:
+        out.append({"k": "opaque", "feat": ("opaque", f.site, f.ctx), "off": f.off, "size": f.got, "label": f.label})
+    return out
+
+
+def terminology_terms():
+    """every value of every enum of psd_tools.terminology, grouped by length (empty when the module moved)"""
+    import enum
+    by_len = {}
+    try:
+        import psd_tools.terminology as T
+        for obj in vars(T).values():
+            if isinstance(obj, type) and issubclass(obj, enum.Enum):
+                for it in obj:
+                    if isinstance(it.value, bytes):
+                        by_len.setdefault(len(it.value), set()).add(it.value)
+    except Exception:  # noqa
+        pass
+    return {k: sorted(v) for k, v in by_len.items()}
+
+
+def non_terms(n: int):
+    """byte strings of length n that are no terminology value (checked by the caller)"""
+    base = [b"Zq" + b"x" * max(0, n - 2), b"z" * n, b"Q" + b" " * max(0, n - 1), (b"notATerm" * 9)[:n]]
+    return [x[:n] for x in base if len(x[:n]) == n]
+
+
+def key_variants(site, data, terms, rng=None, n_rand=6):
+    """same-length substitutions of a key: every terminology term of that length (a sample of them for the 4-byte
+    ones) and non-terms -> [(name, edits)]"""
+    n, off = site["size"], site["off"]
+    cur = data[off:off + n]
+    pool = [t for t in terms.get(n, []) if t != cur]
+    if len(pool) > n_rand + 2:
+        # deterministic extremes first, then a sample
+        pick = [pool[0], pool[-1]] + (rng.sample(pool[1:-1], n_rand) if rng is not None else pool[1:1 + n_rand])
+    else:
+        pick = pool
+    out = [("term:" + t.decode("latin1"), [["put", off, t.hex()]]) for t in pick]
+    tset = set(terms.get(n, []))
+    for t in non_terms(n)[:2]:
+        if t != cur and t not in tset:
+            out.append(("nonterm:" + t.decode("latin1"), [["put", off, t.hex()]]))
+    return out
+
+
+_FLOAT_PATS = {4: (("f:1.0", "3f800000"), ("f:inf", "7f800000"), ("f:-1.5", "bfc00000")),
+               8: (("f:1.0", "3ff0000000000000"), ("f:inf", "7ff0000000000000"), ("f:-1.5", "bff8000000000000"))}
+
+
+def scalar_variants(site, data):
+    """boundary values for a scalar leaf: 0, 1, max, sign bit, signed max (as bytes: for a float these are 0.0, the
+    smallest denormal, NaN, -0.0 and NaN; 1.0, inf and -1.5 are added) -> [(name, edits)]"""
+    n, off = site["size"], site["off"]
+    cur = data[off:off + n]
+    pats = [("zero", b"\0" * n), ("one", b"\0" * (n - 1) + b"\1"), ("max", b"\xff" * n),
+            ("signbit", b"\x80" + b"\0" * (n - 1))]
+    if n > 1:
+        pats.append(("smax", b"\x7f" + b"\xff" * (n - 1)))
+    if site.get("float") and n in _FLOAT_PATS:
+        pats += [(nm, bytes.fromhex(h)) for nm, h in _FLOAT_PATS[n]]
+    return [(nm, [["put", off, raw.hex()]]) for nm, raw in pats if raw != cur]
+
+
+def block_variants(site, ks=(1, 2, 3, 4)):
+    """length-changing splices of one length block, the enclosing lengths kept valid either by compensation (the bytes
+    taken out of the block are put back as filler at the end of the block that encloses it: nothing above changes)
+    or by fixing up every enclosing length field -> [(name, edits)], edits ordered from the highest offset down"""
+    lo, ls, b0, b1 = site["lenoff"], site["lensize"], site["b0"], site["b1"]
+    v = b1 - b0
+    enc = site["encl"]
+    m = 256 ** ls
+    out = []
+
+    def fix(delta):
+        eds = []
+        for eo, es, ev, _ in enc:
+            nv = ev + delta
+            if nv < 0 or nv >= 256 ** es:
+                return None
+            eds.append(["put", eo, nv.to_bytes(es, "big").hex()])
+        return eds
+
+    for k in ks:
+        if k <= v:
+            own = ["put", lo, (v - k).to_bytes(ls, "big").hex()]
+            if enc:
+                e1 = enc[0][3]
+                out.append(("shrink%d+filler" % k, [["rep", e1, e1, "00" * k], ["rep", b1 - k, b1, ""], own]))
+            fx = fix(-k)
+            if fx is not None:
+                out.append(("shrink%d+fixup" % k, [["rep", b1 - k, b1, ""]] + sorted([own] + fx, key=lambda e: -e[1])))
+        if v + k < m:
+            own = ["put", lo, (v + k).to_bytes(ls, "big").hex()]
+            fx = fix(k)
+            if fx is not None:
+                out.append(("grow%d+fixup" % k, [["rep", b1, b1, "00" * k]] + sorted([own] + fx, key=lambda e: -e[1])))
+    if site.get("opaque") and v > 4 and enc:
+        e1 = enc[0][3]
+        out.append(("empty+filler", [["rep", e1, e1, "00" * v], ["rep", b0, b1, ""], ["put", lo, (0).to_bytes(ls, "big").hex()]]))
+    return out
+
+
+def choose_sites(per_fixture, k, order=None):
+    """per_fixture: {name: [site, ...]} -> [(name, site)]: for every feature the first k sites, fixtures taken in
+    `order` (smallest first) and at most one site per (feature, fixture) until every fixture with it had its turn"""
+    names = order or sorted(per_fixture)
+    by_feat = {}
+    for nm in names:
+        seen_here = {}
+        for s in per_fixture.get(nm, ()):
+            seen_here.setdefault(s["feat"], []).append(s)
+        for ft, lst in seen_here.items():
+            if len(lst) > 2:
+                lst = [lst[0], lst[-1]] + lst[1:-1]          # first, last, then the ones in between
+            by_feat.setdefault(ft, []).append((nm, lst))
+    out = []
+    for ft in sorted(by_feat, key=repr):
+        groups = by_feat[ft]
+        picked, rnd = [], 0
+        while len(picked) < k:
+            took = False
+            for nm, lst in groups:
+                if rnd < len(lst) and len(picked) < k:
+                    picked.append((nm, lst[rnd]))
+                    took = True
+            if not took:
+                break
+            rnd += 1
+        seen, uniq = set(), []
+        for nm, s_ in picked:
+            if (nm, s_["off"], s_["k"]) not in seen:
+                seen.add((nm, s_["off"], s_["k"]))
+                uniq.append((nm, s_))
+        out += uniq
+    return out
+
+
+# ---------------------------------------------------------------------------------------------
 # structure-level leaf mutation: parse, change a leaf, write
 # ---------------------------------------------------------------------------------------------
 def _leaves(x, path, out, depth=0):
@@ -471,6 +723,134 @@ def leaf_mutant(rng, data: bytes):
             except Exception:  # noqa
                 return None
     return None
+
+
+LEAF_HOWS = {"int": ("zero", "one", "minus1", "255", "256", "65535", "smax32", "umax32", "plus1"),
+             "float": ("0.0", "-0.0", "1.0", "inf", "denorm"),
+             "bytes": ("empty", "drop-last", "append-nul", "drop-first"),
+             "str": ("empty", "drop-last", "append-x", "non-ascii"),
+             "bool": ("flip",), "enum": ("first", "last", "next")}
+
+
+def _leaf_type(v):
+    import enum
+    if isinstance(v, bool):
+        return "bool"
+    if isinstance(v, enum.Enum):
+        return "enum"
+    for t, nm in ((int, "int"), (float, "float"), (bytes, "bytes"), (str, "str")):
+        if isinstance(v, t):
+            return nm
+    return None
+
+
+def _leaf_paths(x, path, out, depth=0):
+    import attr
+    if depth > 10 or len(out) > 6000:
+        return
+    if attr.has(type(x)):
+        for f in attr.fields(type(x)):
+            v = getattr(x, f.name)
+            t = _leaf_type(v)
+            if t is not None:
+                out.append({"path": path + [["a", f.name]], "cls": type(x).__name__, "field": f.name, "type": t})
+            elif v is not None:
+                _leaf_paths(v, path + [["a", f.name]], out, depth + 1)
+    elif isinstance(x, (list, tuple)):
+        for k, v in enumerate(list(x)[:40]):
+            t = _leaf_type(v)
+            if t is not None and isinstance(x, list):
+                out.append({"path": path + [["i", k]], "cls": "list", "field": "item", "type": t})
+            else:
+                _leaf_paths(v, path + [["i", k]], out, depth + 1)
+    elif hasattr(x, "keys") and hasattr(x, "__getitem__"):
+        for k, key in enumerate(list(x.keys())[:60]):
+            try:
+                _leaf_paths(x[key], path + [["k", k]], out, depth + 1)
+            except Exception:  # noqa
+                pass
+
+
+def leaf_sites(data: bytes):
+    """every scalar leaf of the parsed document -> [{"path", "cls", "field", "type", "feat"}] ([] when rejected)"""
+    from psd_tools.psd import PSD
+    with warnings.catch_warnings():
+        warnings.simplefilter("ignore")
+        try:
+            doc = PSD.read(_RealBytesIO(data))
+        except Exception:  # noqa
+            return []
+    out = []
+    _leaf_paths(doc, [], out)
+    for s_ in out:
+        # the class of the nearest attrs ancestor is part of the feature for list items
+        s_["feat"] = ("leaf", s_["cls"], s_["field"], s_["type"], len(s_["path"]) if s_["cls"] == "list" else 0)
+    return out
+
+
+def _resolve(doc, path):
+    """-> (container, step) of the last step"""
+    x = doc
+    for st in path[:-1]:
+        x = _step(x, st)
+    return x, path[-1]
+
+
+def _step(x, st):
+    if st[0] == "a":
+        return getattr(x, st[1])
+    if st[0] == "i":
+        return x[st[1]]
+    return x[list(x.keys())[st[1]]]
+
+
+def leaf_set(data: bytes, path, how):
+    """parse `data`, set the leaf at `path` to the boundary value named `how`, write with the real writer
+    -> (bytes, description) or None (rejected / not applicable / the writer refuses the value)"""
+    import enum
+    from psd_tools.psd import PSD
+    with warnings.catch_warnings():
+        warnings.simplefilter("ignore")
+        try:
+            doc = PSD.read(_RealBytesIO(data))
+            box, st = _resolve(doc, path)
+            v = _step(box, st)
+        except Exception:  # noqa
+            return None
+        t = _leaf_type(v)
+        nv = v
+        if t == "bool":
+            nv = not v
+        elif t == "enum":
+            mem = list(type(v))
+            nv = {"first": mem[0], "last": mem[-1], "next": mem[(mem.index(v) + 1) % len(mem)]}.get(how, v)
+        elif t == "int":
+            nv = {"zero": 0, "one": 1, "minus1": -1, "255": 255, "256": 256, "65535": 65535, "smax32": 2 ** 31 - 1,
+                  "umax32": 2 ** 32 - 1, "plus1": v + 1}.get(how, v)
+        elif t == "float":
+            nv = {"0.0": 0.0, "-0.0": -0.0, "1.0": 1.0, "inf": float("inf"), "denorm": 5e-324}.get(how, v)
+            if struct.pack(">d", nv) == struct.pack(">d", v):
+                return None
+        elif t == "bytes":
+            nv = {"empty": b"", "drop-last": v[:-1], "append-nul": v + b"\0", "drop-first": v[1:]}.get(how, v)
+        elif t == "str":
+            nv = {"empty": "", "drop-last": v[:-1], "append-x": v + "x", "non-ascii": v + "\u00e9"}.get(how, v)
+        else:
+            return None
+        if t != "float" and (nv == v and type(nv) is type(v)):
+            return None
+        try:
+            if st[0] == "a":
+                setattr(box, st[1], nv)
+            elif st[0] == "i":
+                box[st[1]] = nv
+            else:
+                return None
+            f = _RealBytesIO()
+            doc.write(f)
+        except Exception:  # noqa
+            return None
+        return f.getvalue(), "%s := %s" % (".".join(str(x[1]) for x in path), repr(nv)[:50])
 
 
 # ---------------------------------------------------------------------------------------------
@@ -588,6 +968,23 @@ def mechanisms(doc):
     return sorted(set(out))
 
 
+def _where(e):
+    """innermost psd_tools frame of the traceback of `e` that is not in utils: 'module.Class.function'"""
+    import traceback
+    best = None
+    for fr, _ln in traceback.walk_tb(e.__traceback__):
+        fn = fr.f_code.co_filename
+        if "psd_tools" in fn and not fn.startswith("<"):
+            mod = fn.rsplit("/", 1)[-1][:-3]
+            if mod == "utils" and best is not None:
+                continue
+            cls = fr.f_locals.get("cls")
+            if cls is None and "self" in fr.f_locals:
+                cls = type(fr.f_locals["self"])
+            best = ".".join(x for x in (mod, getattr(cls, "__name__", None), fr.f_code.co_name) if x)
+    return best or "?"
+
+
 def resave_oracle(data: bytes):
     """The property itself on the real code.
     -> ('rejected', class) | ('ok', info) | ('fail', stage, detail, info)"""
@@ -607,6 +1004,7 @@ def resave_oracle(data: bytes):
         try:
             w1, n1 = _write(d0)
         except Exception as e:  # noqa
+            info["where"] = _where(e)
             return ("fail", "write-raises", core.err_class(e) + ": " + str(e)[:120], info)
         if n1 != len(w1):
             return ("fail", "written-count", f"write returned {n1}, emitted {len(w1)}", info)
@@ -616,12 +1014,14 @@ def resave_oracle(data: bytes):
         try:
             d1, tell1 = _read(w1)
         except Exception as e:  # noqa
+            info["where"] = _where(e)
             return ("fail", "reread-raises", core.err_class(e) + ": " + str(e)[:120], info)
         # d0 is the in-memory structure AFTER the save (channel lengths refreshed in place by the writer)
         diffs = struct_diff(d0, d1)
         try:
             w2, _ = _write(d1)
         except Exception as e:  # noqa
+            info["where"] = _where(e)
             return ("fail", "rewrite-raises", core.err_class(e) + ": " + str(e)[:120], info)
         if w2 != w1:
             k = next((i for i, (x, y) in enumerate(zip(w1, w2)) if x != y), min(len(w1), len(w2)))
@@ -648,5 +1048,7 @@ def classify(res):
             return f"C02/{p}/{stage}"
         return f"C02/bytes-only/{stage}"
     if isinstance(detail, str):
+        if info.get("where"):
+            return f"C02/{stage}/{detail.split(':')[0]}/{info['where']}"
         return f"C02/{stage}/{detail.split(':')[0]}"
     return f"C02/{stage}"
